@@ -123,3 +123,37 @@ Example join_examples :
   snd (group_join (mkAcct [5] []) (mkGroup (KeyOk 5) 7 (SigBy 5 7) GMulti 0 0)) = false /\
   snd (group_join (mkAcct [] []) (mkGroup (KeyOk 6) 7 (SigBy 5 7) GMulti 0 0)) = false.
 Proof. vm_compute. repeat split. Qed.
+
+(* ---------- the group registry ---------- *)
+
+Lemma reg_find_put_new r k g : reg_find k r = None -> reg_find k (put_group r k g) = Some g.
+Proof.
+  intros H. unfold put_group. rewrite H. induction r as [|[k' g'] r IH]; cbn in *.
+  - rewrite N.eqb_refl. reflexivity.
+  - destruct (k =? k'); [discriminate | apply IH; exact H].
+Qed.
+
+(* a refused invitation leaves the registry alone, so the genuine invitation joined afterwards is
+   the group found under the identifier *)
+Lemma refused_then_genuine a r k bad g a1 r1 a2 r2 :
+  reg_find k r = None ->
+  service_join a r k bad = (a1, r1, false) -> service_join a1 r1 k g = (a2, r2, true) ->
+  reg_find k r2 = Some g.
+Proof.
+  unfold service_join. intros Hn H1 H2.
+  destruct (group_join a bad) as [x ok] eqn:E1. inversion H1; subst.
+  destruct (group_join a1 g) as [y ok2] eqn:E2. inversion H2; subst.
+  apply reg_find_put_new. exact Hn.
+Qed.
+
+(* storing before checking: the refused group stays *)
+Lemma store_first_keeps_the_refused_group a r k bad g a1 r1 a2 r2 ok1 ok2 :
+  reg_find k r = None ->
+  service_join_store_first a r k bad = (a1, r1, ok1) -> service_join_store_first a1 r1 k g = (a2, r2, ok2) ->
+  reg_find k r2 = Some bad.
+Proof.
+  unfold service_join_store_first. intros Hn H1 H2.
+  destruct (group_join a bad) as [x o1] eqn:E1. inversion H1; subst.
+  destruct (group_join a1 g) as [y o2] eqn:E2. inversion H2; subst.
+  pose proof (reg_find_put_new r k bad Hn) as F. unfold put_group at 1. rewrite F. exact F.
+Qed.
